@@ -62,7 +62,7 @@ def handle (line : String) : String :=
         match Wire.parseValue r with
         | some (.str _ p, []) =>
           match groupBy H xs p with
-          | .ok g => "ok " ++ Wire.showValue (.map (sortEntries (g.map fun e => (e.1, Value.arr e.2))))
+          | .ok g => "ok " ++ Wire.showValue (.map (sortEntriesK (g.map fun e => (e.1, Value.arr e.2))))
           | .missingAttr => "err attr"
           | .badKey => "err key"
         | _ => "bad-args"
